@@ -20,9 +20,28 @@ func runAssign(c *core.Ctx) {
 	nRefs, L := caseSizes(c)
 	nRefs = min(nRefs, 120)
 	nq := c.Pick(12, 24)
+	big := c.Idx%32 == 5
+	if big {
+		// a database of more than 8192 references (whatever is done in blocks or split between
+		// goroutines above some size): the queries are copies of its LAST references
+		nRefs, L = 8192+1+c.Rng.Intn(2500), 24+c.Rng.Intn(17)
+		c.Count("databases_above_8192_references", 1)
+	}
 	rc, d := makeCase(c, nRefs, L, nq)
 	if d == nil {
 		return
+	}
+	if big {
+		for qi := range rc.Queries {
+			src := rc.Refs[len(rc.Refs)-1-c.Rng.Intn(8)]
+			if qi%2 == 0 {
+				src = rc.Refs[len(rc.Refs)-1-qi/2%2] // the very last ones
+			}
+			rc.Queries[qi] = gen.Mutate(c.Rng, src, c.Rng.Intn(2))
+			if len(rc.Queries[qi]) < 8 {
+				rc.Queries[qi] = append([]byte{}, src...)
+			}
+		}
 	}
 	// unknown taxids
 	used := map[int]bool{}
@@ -31,7 +50,7 @@ func runAssign(c *core.Ctx) {
 	}
 	orphanID := func() int {
 		for {
-			id := 1 + c.Rng.Intn(1 << 20)
+			id := 1 + c.Rng.Intn(1<<20)
 			if !used[id] {
 				return id
 			}
@@ -126,6 +145,25 @@ func runAssign(c *core.Ctx) {
 		nd, known := d.nodeOf[taxid]
 		if !known {
 			violate(c, "assign:unknown-taxon:"+where, fmt.Sprintf("assigned taxid %d is not in the taxonomy", taxid), detail)
+			continue
+		}
+		// the best match named in the record and the number of best matches
+		if bm, ok := out.GetStringAttribute("obitag_bestmatch"); ok {
+			isBest := false
+			for _, b := range best {
+				if bm == fmt.Sprintf("ref%04d", b) {
+					isBest = true
+				}
+			}
+			if !isBest {
+				detail["obitag_bestmatch"] = bm
+				violate(c, "assign:bestmatch:unknown-taxid-"+where, fmt.Sprintf("the reference named as best match (%s) is not at the minimal distance %d", bm, dmin), detail)
+				continue
+			}
+		}
+		if mc, ok := out.GetIntAttribute("obitag_match_count"); ok && mc != len(best) {
+			detail["obitag_match_count"] = mc
+			violate(c, "assign:match-count:unknown-taxid-"+where, fmt.Sprintf("%d best matches reported, %d references lie at the minimal distance %d", mc, len(best), dmin), detail)
 			continue
 		}
 		for _, b := range best {
